@@ -13,8 +13,8 @@ use crate::refledger::{self as rl, Ann, Bal, Exp, Prec, State, P};
 pub const DEF: CheckDef = CheckDef {
     id: "C04",
     run,
-    technique: "exhaustive enumeration of all ledgers of up to 3-4 transactions over a 16-transaction alphabet (as histories, any file order) x precision contexts x ALL (start,end) date ranges; balance, range-recomputed balance and register are obtained from the real code and compared with each other and with the reference ledger's per-posting amounts",
-    rule: "case = (precision context, sequence of <= 4 (thorough 5) transactions from a 16-transaction alphabet with three dates, repeated dates, multi-commodity, cancelling, inferred, assigned, priced and sub-precision postings); inside a case all 36 (start,end) pairs over {none, d1-1, d1, d2, d3, d3+1} (incl. start=end and start>end) are queried, additivity is checked for every split point, and a slice of cases is also run through the CLI (balance/register on real files). states = distinct ledgers, transitions = balance/register queries compared",
+    technique: "exhaustive enumeration of all ledgers of up to 3-4 transactions over a 17-transaction alphabet (as histories, any file order) x precision contexts x ALL (start,end) date ranges; balance, range-recomputed balance and register are obtained from the real code and compared with each other and with the reference ledger's per-posting amounts",
+    rule: "case = (precision context, sequence of <= 4 (thorough 5) transactions from a 17-transaction alphabet with three dates, repeated dates, multi-commodity, cancelling, inferred, assigned, priced and sub-precision postings); inside a case all 36 (start,end) pairs over {none, d1-1, d1, d2, d3, d3+1} (incl. start=end and start>end) are queried, additivity is checked for every split point, and a slice of cases is also run through the CLI (balance/register on real files). states = distinct ledgers, transitions = balance/register queries compared",
     assumptions: &[
         "RefLedger gives the per-posting amounts; sums are exact rationals; a range report may be rounded to the declared precision (any midpoint rule accepted), the whole-history report may be raw",
         "three dates, accounts {P,Q,R}, commodities {X,Y}",
@@ -29,6 +29,10 @@ struct T {
     day: u32,
     ps: Vec<P>,
 }
+/// transactions with this day are written `2024/01/<day>=2024/01/<EFF>`: the effective date is only a note,
+/// reports place the transaction by its date
+const WITH_EFFECTIVE_DATE: u32 = 12;
+const EFF: u32 = 25;
 
 const D1: u32 = 10;
 const D2: u32 = 15;
@@ -51,6 +55,8 @@ fn alphabet() -> Vec<T> {
         T { day: D3, ps: vec![a("P", "1", "X"), a("P", "-1", "X")] },
         T { day: D2, ps: vec![a("P", "0.004", "X"), a("Q", "-0.004", "X")] },
         T { day: D3, ps: vec![a("Q", "2", "Y").with_ann(Ann::LotRate("3", "X")), a("R", "-6", "X")] },
+        // dated between d1 and d2 with an effective date after d3
+        T { day: WITH_EFFECTIVE_DATE, ps: vec![a("P", "7", "X"), a("Q", "-7", "X")] },
         // assignments to zero of one commodity (the account must stop showing it) and of the whole account
         T { day: D2, ps: vec![P::assign("P", Bal::Val("0", "X")), P::omitted("Q")] },
         T { day: D3, ps: vec![P::assign("Q", Bal::Val("0", "Y")), P::omitted("R")] },
@@ -60,7 +66,11 @@ fn alphabet() -> Vec<T> {
 fn render(prec: &Prec, seq: &[&T]) -> String {
     let mut s = rl::prec_header(prec);
     for (i, t) in seq.iter().enumerate() {
-        s.push_str(&format!("2024/01/{:02} t{}\n", t.day, i));
+        if t.day == WITH_EFFECTIVE_DATE {
+            s.push_str(&format!("2024/01/{:02}=2024/01/{:02} t{}\n", t.day, EFF, i));
+        } else {
+            s.push_str(&format!("2024/01/{:02} t{}\n", t.day, i));
+        }
         for p in &t.ps {
             s.push_str(&p.render(p.acct));
             s.push('\n');
